@@ -85,6 +85,26 @@ def split_runs(trace_path):
     return runs
 
 
+def idleabs_inductive(work):
+    """Apalache: IndInv of spec/IdleAbs.tla is an inductive invariant (two bounded checks of length 0 and 1)."""
+    import shutil
+    import subprocess
+    d = work.path("apalache")
+    os.makedirs(d, exist_ok=True)
+    shutil.copy(os.path.join(C.SPEC, "IdleAbs.tla"), d)
+    res = {}
+    for name, args in (("init_implies_inv", ["--init=Init", "--inv=IndInv", "--length=0"]), ("inductive_step", ["--init=IndInit", "--inv=IndInv", "--length=1"])):
+        try:
+            r = subprocess.run(["apalache-mc", "check"] + args + ["IdleAbs.tla"], cwd=d, capture_output=True, text=True, timeout=600)
+            out = r.stdout + r.stderr
+            res[name] = "proved" if "EXITCODE: OK" in out else ("VIOLATED" if "violat" in out else "tool-error")
+        except (subprocess.TimeoutExpired, OSError) as e:
+            res[name] = f"not-run ({type(e).__name__})"
+    if "VIOLATED" in res.values():
+        raise C.ToolError("IdleAbs.tla: IndInv is not inductive (specification regression)")
+    return res
+
+
 def run_check(prop, tier, replay=None):
     t0 = time.time()
     seed = C.seed()
@@ -102,6 +122,7 @@ def _run(prop, tier, replay, seed, work, t0):
     design = []
     selftests = []
     scheds = []
+    apalache = None
     if replay:
         with open(replay) as f:
             rp = json.load(f)
@@ -125,6 +146,13 @@ def _run(prop, tier, replay, seed, work, t0):
         for cfg in (qcfgs if quick else tcfgs):
             r = C.design_check(DESIGN_MODULE.get(cfg, "Loop"), cfg, work, workers=12 if quick else 14, timeout=600 if quick else 1500, xmx="10g")
             design.append(r)
+        if prop == "C05":
+            # ---- unbounded argument for the idle discipline on a sequence-free abstraction (IdleAbs.tla): TLC checks the invariant, and in the
+            # thorough tier Apalache checks that it is INDUCTIVE (Init => IndInv, IndInv /\ Next => IndInv') - no bound on requests or changes.
+            # Apalache is not on the critical path: a failure to RUN it is a note in the evidence, never a verdict (DESIGN.md 9, 12.7)
+            design.append(C.design_check("IdleAbs", "IdleAbs.cfg", work, workers=2, timeout=120, coverage=False))
+            if not quick:
+                apalache = idleabs_inductive(work)
         # ---- vacuity guard: a seeded model mutant must trip the monitor it is aimed at
         for cfg, tag in muts:      # (all of them in both tiers: they are cheap, and the two tiers must not drift apart)
             r = C.tlc_model(cfg.split("_mut_")[0] if cfg.split("_mut_")[0] in ("Handshake", "AlbumArt") else "Loop", cfg, work, workers=4, timeout=200, coverage=False)
@@ -283,6 +311,9 @@ def _run(prop, tier, replay, seed, work, t0):
         "hook_level_binding": binding,
         "model_scope": MODEL_SCOPE.get(prop, MODEL_SCOPE["loop"]),
     }
+    if apalache is not None:
+        cov["apalache_inductive_invariant"] = dict(apalache, module="IdleAbs.tla", invariant="IndInv (implies Safe: no command but noidle while the server waits in idle, one exchange outstanding)",
+                                                   meaning="unbounded in the number of requests and changes; sequence-free abstraction of Loop.tla's blocking segments")
     assumptions = [
         "the MPD server rules in spec/World.tla (idle/noidle, command lists, ACK) are transcribed from the protocol reference; no MPD binary is available",
         "single-threaded tokio runtime with paused clock; the loop observes its environment only at polls (DESIGN.md 4.1)",
